@@ -218,7 +218,7 @@ Definition is_armed (o : cobj) : Prop := w_flag (o_will o) = true /\ o_phase o <
 
 Definition wsrc (s s' : state) : Prop :=
   (forall c o', get_obj c (st_objs s') = Some o' -> is_armed o' ->
-     exists o, get_obj c (st_objs s) = Some o /\ is_armed o /\ will_msg (o_will o') = will_msg (o_will o) /\ o_id o' = o_id o) /\
+     exists o, get_obj c (st_objs s) = Some o /\ is_armed o /\ o_will o' = o_will o /\ o_id o' = o_id o) /\
   (forall id d, In (id, d) (st_wills s') ->
      In (id, d) (st_wills s) \/
      exists o, get_obj (d_conn d) (st_objs s) = Some o /\ is_armed o /\ d_msg d = will_msg (o_will o) /\ o_id o = id).
@@ -301,7 +301,7 @@ Qed.
 (* replacing an object by one that is armed only if the old one was, with the same will message *)
 Lemma wsrc_upd s o o0 :
   get_obj (o_conn o) (st_objs s) = Some o0 -> o_id o = o_id o0 ->
-  (is_armed o -> is_armed o0 /\ will_msg (o_will o) = will_msg (o_will o0)) -> wsrc s (upd_obj s o).
+  (is_armed o -> is_armed o0 /\ o_will o = o_will o0) -> wsrc s (upd_obj s o).
 Proof.
   intros G EI H. split.
   - intros c o' G' AR. unfold upd_obj in G'. cbn in G'. destruct (N.eq_dec c (o_conn o)) as [->|N].
@@ -417,7 +417,7 @@ Proof.
 Qed.
 
 Lemma wsrc_match_upd e (f : cobj -> cobj) s :
-  (forall x, o_conn (f x) = o_conn x /\ o_id (f x) = o_id x /\ (is_armed (f x) -> is_armed x /\ will_msg (o_will (f x)) = will_msg (o_will x))) ->
+  (forall x, o_conn (f x) = o_conn x /\ o_id (f x) = o_id x /\ (is_armed (f x) -> is_armed x /\ o_will (f x) = o_will x)) ->
   wsrc s (match get_obj e (st_objs s) with Some x => upd_obj s (f x) | None => s end).
 Proof.
   intro H. destruct (get_obj e (st_objs s)) as [x|] eqn:G; [|apply wsrc_refl].
